@@ -33,6 +33,25 @@ def scan_assumptions(path):
     return res
 
 
+_pruned = False
+
+
+def _prune_old(max_age_s=3 * 3600):
+    """remove assembled files of earlier processes (per-process names would otherwise pile up)"""
+    global _pruned
+    if _pruned:
+        return
+    _pruned = True
+    now = time.time()
+    try:
+        for f in os.listdir(BUILD):
+            fp = os.path.join(BUILD, f)
+            if re.search(r'_p\d+\.rs', f) and os.path.isfile(fp) and now - os.path.getmtime(fp) > max_age_s:
+                os.remove(fp)
+    except OSError:
+        pass
+
+
 def run_unit(unit, repo=None, tag=''):
     """Returns dict:
       status: 'ok' | 'failed' | 'undecided'
@@ -40,6 +59,12 @@ def run_unit(unit, repo=None, tag=''):
       errors: [ {fn, kind, msg, line, origin, clause} ]
       reason: for undecided
     """
+    # one file per process: concurrent checks of different properties share units and must not
+    # overwrite each other's assembled text (VERIF_VTAG='' gives the plain name, for debugging)
+    if not tag:
+        tag = os.environ.get('VERIF_VTAG', f'_p{os.getpid()}')
+    os.makedirs(BUILD, exist_ok=True)
+    _prune_old()
     out_rs = os.path.join(BUILD, f'{unit}{tag}.rs')
     res = {'unit': unit, 'file': out_rs, 'functions': {}, 'errors': [], 'status': 'ok'}
     t0 = time.time()
@@ -195,7 +220,8 @@ def fn_spans(lines):
 
 
 if __name__ == '__main__':
-    r = run_unit(sys.argv[1])
+    os.environ.setdefault('VERIF_VTAG', '')
+    r = run_unit(sys.argv[1], tag=os.environ['VERIF_VTAG'])
     r.pop('extraction', None)
     if len(sys.argv) > 2 and sys.argv[2] == '--names':
         print(r['status'], r.get('wall_s'), r.get('reason', ''))
